@@ -80,6 +80,9 @@ func (x *Exec) evalCall(st *State, e *ast.CallExpr) []Val {
 			v := x.eval(st, a)
 			if isNilExpr(info, a) && i < sig.Params().Len() {
 				v.G = sig.Params().At(i).Type()
+				if want := x.w.sortOf(v.G); want != v.S {
+					v = Val{T: x.w.zero(want), S: want, G: v.G}
+				}
 			}
 			args = append(args, v)
 		}
@@ -148,6 +151,9 @@ func (x *Exec) evalCall(st *State, e *ast.CallExpr) []Val {
 			v := x.eval(st, a)
 			if isNilExpr(info, a) && i < sig.Params().Len() {
 				v.G = sig.Params().At(i).Type()
+				if want := x.w.sortOf(v.G); want != v.S {
+					v = Val{T: x.w.zero(want), S: want, G: v.G}
+				}
 			}
 			args = append(args, v)
 		}
@@ -464,6 +470,11 @@ func (x *Exec) evalBuiltin(st *State, e *ast.CallExpr, name string) []Val {
 				st.assume(and(app("<=", "0", r.T), app("<", r.T, two63)))
 				return one(r)
 			}
+			// len of a channel: what is buffered right now - any value up to the capacity
+			x.declare("chancap", "FUN (Int) Int")
+			n := x.freshConst("chanlen", "Int")
+			st.assume(and(app("<=", "0", n), app("<=", n, app("chancap", a.T)), app("<", n, two63)))
+			return one(Val{T: n, S: "Int", G: t})
 		}
 		x.unsupported(e, name+" of "+a.G.String())
 		return one(Val{T: "0", S: "Int", G: t})
